@@ -47,6 +47,9 @@ func (b *Bucket) rec(op, name string, err error) {
 }
 
 func (b *Bucket) List(ctx context.Context, prefix string) (simpleblob.BlobList, error) {
+	if err := ctx.Err(); err != nil {
+		return nil, err // like the S3 and fs backends, a cancelled context fails the call
+	}
 	if b.Hook != nil {
 		if err := b.Hook("list", prefix); err != nil {
 			b.rec("list", prefix, err)
@@ -67,6 +70,9 @@ func (b *Bucket) List(ctx context.Context, prefix string) (simpleblob.BlobList, 
 }
 
 func (b *Bucket) Load(ctx context.Context, name string) ([]byte, error) {
+	if err := ctx.Err(); err != nil {
+		return nil, err // like the S3 and fs backends, a cancelled context fails the call
+	}
 	if b.Hook != nil {
 		if err := b.Hook("load", name); err != nil {
 			b.rec("load", name, err)
@@ -85,6 +91,9 @@ func (b *Bucket) Load(ctx context.Context, name string) ([]byte, error) {
 }
 
 func (b *Bucket) Store(ctx context.Context, name string, data []byte) error {
+	if err := ctx.Err(); err != nil {
+		return err // like the S3 and fs backends, a cancelled context fails the call
+	}
 	if b.Hook != nil {
 		if err := b.Hook("store", name); err != nil {
 			b.rec("store", name, err)
@@ -102,6 +111,9 @@ func (b *Bucket) Store(ctx context.Context, name string, data []byte) error {
 }
 
 func (b *Bucket) Delete(ctx context.Context, name string) error {
+	if err := ctx.Err(); err != nil {
+		return err // like the S3 and fs backends, a cancelled context fails the call
+	}
 	if b.Hook != nil {
 		if err := b.Hook("delete", name); err != nil {
 			b.rec("delete", name, err)
